@@ -3,6 +3,7 @@ package sm2
 import (
 	"bytes"
 	"math/big"
+	"strconv"
 )
 
 // H01-nonce: the per-signature nonce (also used by Encrypt and the key exchange) drawn by
@@ -13,7 +14,7 @@ import (
 //verif:property C01
 //verif:property C03
 //verif:expect-reach end
-//verif:bound symbolic run: abstract group of order 65537 or 257 (BitSize 17: 10 random bytes, all 80 bits symbolic) for randFieldElement; GenerateKey on the real parameters with the curve multiplication recording its scalar, random block = one of {0, n-2, n-1, n, 2(n-2), 2n} + a symbolic 16-bit offset; natively the real curve with random blocks c*(n-1)+e, c*n+e, c*(n-2)+e for small c, e
+//verif:bound symbolic run: abstract group of order 65537 or 257 (BitSize 17: 10 random bytes, all 80 bits symbolic, delivered by the source in one piece, byte by byte or 7 bytes per call) for randFieldElement; GenerateKey on the real parameters with the curve multiplication recording its scalar, random block = one of {0, n-2, n-1, n, 2(n-2), 2n} + a symbolic 16-bit offset; natively the real curve with random blocks c*(n-1)+e, c*n+e, c*(n-2)+e for small c, e
 //verif:outside uniformity of the nonce (the standard's requirement on the random source); the curve arithmetic (zzH_c03_*)
 //verif:stub-symbolic (github.com/tjfoc/gmsm/sm2.sm2P256Curve).ScalarBaseMult zzStubSBMRec
 //verif:unwind 200
@@ -30,6 +31,9 @@ func zzH_c01_nonce_range() {
 					v.FillBytes(blk)
 					k, err := randFieldElement(c, bytes.NewReader(blk))
 					vAssert("nonce-in-range", err == nil && k.Sign() > 0 && k.Cmp(n) < 0)
+					// the same bytes delivered one at a time give the same nonce
+					k1, err1 := randFieldElement(c, &zzOneByteReader{bytes.NewReader(blk)})
+					vAssert("nonce-determined-by-the-bytes-read", err1 == nil && k1.Cmp(k) == 0)
 					priv, err := GenerateKey(bytes.NewReader(blk))
 					vAssert("key-in-range", err == nil && priv.D.Sign() > 0 && priv.D.Cmp(new(big.Int).Sub(n, one)) < 0)
 					px, py := c.ScalarBaseMult(priv.D.Bytes())
@@ -42,12 +46,13 @@ func zzH_c01_nonce_range() {
 	if vChoice("fn", 2) == 0 {
 		q := []int64{65537, 257}[vChoice("q", 2)]
 		g := zzNewGroup(q)
-		r := &zzRand{}
+		// the random source may deliver its bytes in pieces (an io.Reader need not fill the buffer)
+		r := &zzChunkRand{chunk: []int{1 << 20, 1, 7}[vChoice("chunk", 3)]}
 		k, err := randFieldElement(g, r)
-		vAssert("nonce-read-ok", err == nil && r.calls == 1 && len(r.last) == 10)
+		vAssert("nonce-read-ok", err == nil && len(r.stream) == 10)
 		n := big.NewInt(q)
 		vAssert("nonce-in-range", k.Sign() > 0 && k.Cmp(n) < 0)
-		ref := new(big.Int).SetBytes(r.last)
+		ref := new(big.Int).SetBytes(r.stream)
 		ref.Mod(ref, big.NewInt(q-1))
 		ref.Add(ref, one)
 		vAssert("nonce-determined-by-the-bytes-read", k.Cmp(ref) == 0)
@@ -84,4 +89,32 @@ func zzStubSBMRec(recv interface{}, k []byte) (*big.Int, *big.Int) {
 	zzSBMScalar = append([]byte{}, k...)
 	zzSBMx, zzSBMy = new(big.Int).SetBytes(vBytes("sbm.x", 32, 32)), new(big.Int).SetBytes(vBytes("sbm.y", 32, 32))
 	return zzSBMx, zzSBMy
+}
+
+// zzChunkRand is a random source that returns at most chunk fresh symbolic bytes per call.
+type zzChunkRand struct {
+	chunk  int
+	stream []byte
+	calls  int
+}
+
+func (r *zzChunkRand) Read(p []byte) (int, error) {
+	n := len(p)
+	if n > r.chunk {
+		n = r.chunk
+	}
+	b := vBytes("rand."+strconv.Itoa(r.calls), n, n)
+	r.calls++
+	copy(p, b)
+	r.stream = append(r.stream, b...)
+	return n, nil
+}
+
+type zzOneByteReader struct{ r *bytes.Reader }
+
+func (o *zzOneByteReader) Read(p []byte) (int, error) {
+	if len(p) == 0 {
+		return 0, nil
+	}
+	return o.r.Read(p[:1])
 }
